@@ -105,4 +105,10 @@ CHECKS = {
         '(declaration styles, statement order, pin order, comments, attributes, whitespace, both branchforks settings) z3 proves that every output port - compared by position - and every state element computes the described function for all stimuli; '
         'bench and Verilog renderings of the same netlist are both proved equal to the ground truth, hence equivalent; branchforks only adds forks.',
    note='The text dimension is enumerated by the renderer in checks/c11.py (trusted with its evaluator and the C19 data-sheet table). Positional pin connections and hierarchical Verilog outside the claim.'),
+ 'C18': dict(engine='E2-symx', category='model_checking', design_ref='DESIGN.md §5 C18, §7',
+   technique='forking symbolic execution of the real StilFile.tests()/responses()/tests_loc() with symbolic pattern characters (one position at a time) on enumerated chain layouts, marker placements, group orders and call sequences; rendered texts for the grammar',
+   text='For every subset of inversion-marker gaps (quick: <= 2 markers), both signal-group orders and three call flows (stuck-at, launch-on-capture with and without launch pulse), every pattern character position in turn is symbolic and '
+        'all paths of the real assembly functions are compared with the STIL semantics: chain order (first shifted bit = cell nearest scan-out), load/unload inversion sides, unknowns not inverted, PI/PO mapping through the groups, '
+        'LoC values = transition(loaded, netlist next state). Grammar -> IR is compared on rendered STIL texts and the two shipped files.',
+   note='Chains, markers, group orders, flows and texts enumerated; STIL semantics oracle in checks/c18.py trusted; capture without clock pulse in LoC flows is outside the generated family.'),
 }
